@@ -335,9 +335,13 @@ def run_case(case):
             if rule_assigned_params:
                 continue
             C["final_comparisons"] += 1
+            if kind == "det":
+                # the twin may hold its parameters in another internal order: its right-hand side then differs in the last bit and
+                # the adaptive integrator may choose other steps, so the two agree to the integrator's tolerance, not to the bit
+                eqf = lambda x, y: np.allclose(x, y, rtol=1e-5, atol=1e-7 * (1.0 + float(np.nanmax(np.abs(y))) if np.size(y) else 1.0), equal_nan=True)
             for s in ih:
                 if not eqf(h1[:, ih[s]], t1[:, it[s]]):
-                    j = int(np.argmax(h1[:, ih[s]] != t1[:, it[s]]))
+                    j = int(np.argmax(~np.isclose(h1[:, ih[s]], t1[:, it[s]], rtol=1e-5, atol=0, equal_nan=True))) if kind == "det" else int(np.argmax(h1[:, ih[s]] != t1[:, it[s]]))
                     bad("history-dependence:" + kind, "seed %d: %s simulation of the model reached through the history differs from the freshly built twin (species %s, row %d: %r vs %r)" % (
                         seed, kind, s, j, h1[j, ih[s]], t1[j, it[s]]))
                     break
@@ -356,7 +360,7 @@ def run_case(case):
                     bad("operation-raises", "simulating through an interface built before the final value edits raised %r" % (e,))
                     continue
                 C["pre_built_interface_comparisons"] += 1
-                eqf = (lambda x, y: np.allclose(x, y, rtol=1e-10, atol=1e-12, equal_nan=True)) if kind == "det" else (lambda x, y: np.array_equal(x, y, equal_nan=True))
+                eqf = (lambda x, y: np.allclose(x, y, rtol=1e-5, atol=1e-7 * (1.0 + float(np.nanmax(np.abs(y))) if np.size(y) else 1.0), equal_nan=True)) if kind == "det" else (lambda x, y: np.array_equal(x, y, equal_nan=True))
                 for s in ih:
                     if not eqf(a[:, ih[s]], b[:, it[s]]):
                         j = int(np.argmax(a[:, ih[s]] != b[:, it[s]]))
